@@ -11,6 +11,9 @@ OWN = {
     "ilsdrf.": ("C02", "C09"),
     "fs.": ("C02", "C09"),
     "fs.props_staged": ("C02", "C09"),
+    # a session can never replace a data file finalized by an earlier one: creation only after the final name was seen absent
+    "fs.create_only_if_final_absent": ("C02", "C09", "C11"),
+    "fs.create_exclusive": ("C02", "C09", "C11"),
     "io.": ("C10",),
     "session.": ("C11",),
     "init.": ("C11",),
